@@ -468,11 +468,16 @@ Definition only_last_partial (revs : list rev) : Prop := Forall complete (remove
 Definition has_rev (revs : list rev) (v : bytes) : bool :=
   existsb (fun r => bytes_eqb (r_version r) v) revs.
 
+(** [v] has a completely applied revision. *)
+Definition done_rev (revs : list rev) (v : bytes) : bool :=
+  existsb (fun r => bytes_eqb (r_version r) v && (r_applied r =? r_total r)) revs.
+
 (** Out-of-order files: non-checkpoint files inside the window [fv <= version < lv]
-    that have no revision, in directory order. *)
+    that were never applied or only partially (no completely applied revision), in
+    directory order. *)
 Definition ooo_files (fv lv : bytes) (revs : list rev) (all : list file) : list file :=
   filter (fun f => negb (f_ckpt f) && bytes_leb fv (f_version f) && bytes_ltb (f_version f) lv
-                   && negb (has_rev revs (f_version f))) all.
+                   && negb (done_rev revs (f_version f))) all.
 
 Definition first_spec (c : cfg) (all : list file) : presult * option rev :=
   if c_dirty c && negb (c_allow_dirty c) && (match c_baseline c with None => true | Some _ => false end)
@@ -513,7 +518,7 @@ Definition p_tail (c : cfg) (revs : list rev) (migrations : list file) (idx : na
   | Some first =>
       if (first <? idx) && negb (match c_order c with LinearSkip => true | _ => false end) then
         let window := skipn first (firstn idx migrations) in
-        let skipped := filter (fun f => negb (snd (bsearch (map (@r_version hash) revs) (f_version f)))) window in
+        let skipped := filter (out_of_order revs) window in
         match skipped, c_order c with
         | [], _ => (finish pend, None)
         | _, NonLinear => (finish (skipped ++ pend), None)
@@ -584,7 +589,7 @@ Qed.
 
 Definition ooo_of (fv : bytes) (revs : list rev) (pre : list file) : list file :=
   match index_func (fun f => bytes_leb fv (f_version f)) pre with
-  | Some first => filter (fun f => negb (snd (bsearch (map (@r_version hash) revs) (f_version f)))) (skipn first pre)
+  | Some first => filter (out_of_order revs) (skipn first pre)
   | None => []
   end.
 
@@ -623,6 +628,49 @@ Proof.
   - apply B, H. reflexivity.
 Qed.
 
+Lemma sorted_revs_unique revs a b :
+  sorted_revs revs -> In a revs -> In b revs -> r_version a = r_version b -> a = b.
+Proof.
+  unfold sorted_revs. induction 1 as [|x l Hs IH Hf]; [intros []|].
+  rewrite Forall_forall in Hf. intros [<-|Ha] [<-|Hb] E; auto.
+  - specialize (Hf b Hb). unfold rver_lt in Hf. rewrite E, bytes_ltb_irrefl in Hf. discriminate.
+  - specialize (Hf a Ha). unfold rver_lt in Hf. rewrite E, bytes_ltb_irrefl in Hf. discriminate.
+Qed.
+
+Lemma done_rev_In revs v :
+  done_rev revs v = true <-> exists r, In r revs /\ r_version r = v /\ r_applied r = r_total r.
+Proof.
+  unfold done_rev. rewrite existsb_exists. split; intros (r & Hr & H); exists r.
+  - apply andb_true_iff in H as [E C]. apply bytes_eqb_eq in E. apply Nat.eqb_eq in C. auto.
+  - destruct H as [E C]. split; [exact Hr|]. rewrite E, bytes_eqb_refl, C, Nat.eqb_refl. reflexivity.
+Qed.
+
+Lemma done_rev_has_rev revs v : done_rev revs v = true -> has_rev revs v = true.
+Proof.
+  intros H. apply done_rev_In in H as (r & Hr & E & _). apply has_rev_In. rewrite <- E. apply in_map. exact Hr.
+Qed.
+
+(** The loop test of [Pending] ("not found, or found but partially applied") is "no
+    completely applied revision" on a table sorted by version. *)
+Lemma out_of_order_done revs f :
+  sorted_revs revs -> out_of_order revs f = negb (done_rev revs (f_version f)).
+Proof.
+  intros Hs. unfold out_of_order.
+  destruct (bsearch (map (@r_version hash) revs) (f_version f)) as [i found] eqn:Eb.
+  destruct found; cbn [negb orb].
+  - apply bsearch_found in Eb. rewrite nth_error_map in Eb.
+    destruct (nth_error revs i) as [r|] eqn:En; [|discriminate]. simpl in Eb. injection Eb as Ev.
+    pose proof (nth_error_In _ _ En) as Hr.
+    destruct (r_applied r =? r_total r) eqn:Ec; cbn [negb].
+    + symmetry. apply negb_false_iff. apply done_rev_In. exists r. apply Nat.eqb_eq in Ec. auto.
+    + symmetry. apply negb_true_iff. destruct (done_rev revs (f_version f)) eqn:D; [|reflexivity].
+      apply done_rev_In in D as (r' & Hr' & E' & C').
+      assert (r' = r) as -> by (apply (sorted_revs_unique revs); auto; congruence).
+      apply Nat.eqb_neq in Ec. contradiction.
+  - symmetry. apply negb_true_iff. destruct (done_rev revs (f_version f)) eqn:D; [|reflexivity].
+    apply done_rev_has_rev in D. rewrite <- (bsearch_has_rev revs _ Hs), Eb in D. discriminate.
+Qed.
+
 Lemma window_filter fv pre :
   sorted_files pre ->
   match index_func (fun f => bytes_leb fv (f_version f)) pre with
@@ -640,16 +688,16 @@ Qed.
 Lemma ooo_of_filter fv revs pre :
   sorted_files pre -> sorted_revs revs ->
   ooo_of fv revs pre =
-  filter (fun f => bytes_leb fv (f_version f) && negb (has_rev revs (f_version f))) pre.
+  filter (fun f => bytes_leb fv (f_version f) && negb (done_rev revs (f_version f))) pre.
 Proof.
   intros Hp Hr. unfold ooo_of. rewrite <- filter_filter. rewrite <- (window_filter fv pre Hp).
   destruct (index_func _ pre) as [j|]; [|reflexivity].
-  apply filter_ext_in. intros a _. rewrite (bsearch_has_rev revs _ Hr). reflexivity.
+  apply filter_ext_in. intros a _. apply (out_of_order_done revs a Hr).
 Qed.
 
 Lemma ooo_files_mig fv lv revs all :
   ooo_files fv lv revs all =
-  filter (fun f => bytes_leb fv (f_version f) && bytes_ltb (f_version f) lv && negb (has_rev revs (f_version f)))
+  filter (fun f => bytes_leb fv (f_version f) && bytes_ltb (f_version f) lv && negb (done_rev revs (f_version f)))
          (skip_checkpoints all).
 Proof.
   unfold ooo_files, skip_checkpoints. rewrite filter_filter. apply filter_ext_in. intros a _.
@@ -657,12 +705,12 @@ Proof.
 Qed.
 
 Lemma ooo_eq fv lv revs pre post :
-  sorted_revs revs -> has_rev revs lv = true ->
+  sorted_revs revs -> (forall x, In x pre -> f_version x = lv -> done_rev revs lv = true) ->
   sorted_files (pre ++ post) ->
   (forall x, In x pre -> bytes_leb (f_version x) lv = true) ->
   (forall x, In x post -> bytes_leb lv (f_version x) = true) ->
   ooo_of fv revs pre =
-  filter (fun f => bytes_leb fv (f_version f) && bytes_ltb (f_version f) lv && negb (has_rev revs (f_version f)))
+  filter (fun f => bytes_leb fv (f_version f) && bytes_ltb (f_version f) lv && negb (done_rev revs (f_version f)))
          (pre ++ post).
 Proof.
   intros Hr Hl Hs Hpre Hpost. apply StronglySorted_app_inv in Hs as (Hs1 & _ & _).
@@ -670,9 +718,9 @@ Proof.
   2:{ intros x Hx. apply Hpost in Hx. apply bytes_ltb_false_leb in Hx. rewrite Hx.
       rewrite andb_false_r. reflexivity. }
   rewrite app_nil_r. rewrite (ooo_of_filter fv revs pre Hs1 Hr).
-  apply filter_ext_in. intros x Hx. apply Hpre in Hx. apply bytes_leb_cases in Hx as [L|E].
+  apply filter_ext_in. intros x Hx. pose proof (Hl x Hx) as Hd. apply Hpre in Hx. apply bytes_leb_cases in Hx as [L|E].
   - rewrite L, andb_true_r. reflexivity.
-  - rewrite E, Hl. simpl. rewrite !andb_false_r. reflexivity.
+  - rewrite E, (Hd E). simpl. rewrite !andb_false_r. reflexivity.
 Qed.
 
 Lemma last_In (revs : list rev) r0 : revs <> [] -> In (last revs r0) revs.
@@ -715,7 +763,8 @@ Proof.
         2:{ intros x Hx. apply bytes_ltb_false_leb. apply Hpre. exact Hx. }
         2:{ exact Hpost. }
         rewrite <- (ooo_eq (r_version r0) (r_version lst) revs (l1 ++ [g]) l2); auto.
-        intros x Hx. apply bytes_ltb_leb. apply Hpost. exact Hx.
+        -- intros x _ _. apply done_rev_In. exists lst. apply Nat.eqb_eq in Ec. auto.
+        -- intros x Hx. apply bytes_ltb_leb. apply Hpost. exact Hx.
       * pose proof (proj1 (fli_None _ _) Ef) as Hn.
         assert (forall x, In x (skip_checkpoints all) -> bytes_ltb (r_version lst) (f_version x) = true) as Hpost.
         { intros x Hx. apply bytes_leb_false_ltb. apply Hn. exact Hx. }
@@ -756,7 +805,8 @@ Proof.
         2:{ rewrite filter_app. rewrite (filter_false _ _ Hpre). simpl. rewrite bytes_ltb_irrefl.
             rewrite (filter_true _ _ Hpost). reflexivity. }
         rewrite <- (ooo_eq (r_version r0) (f_version f) revs (skip_checkpoints l1) (f :: skip_checkpoints l2)); auto.
-        -- rewrite Ev. exact Hhas.
+        -- intros x Hx E. exfalso. apply skip_checkpoints_In in Hx as [Hx _]. apply Hlt in Hx.
+           rewrite E, bytes_ltb_irrefl in Hx. discriminate.
         -- intros x Hx. apply bytes_ltb_leb. apply skip_checkpoints_In in Hx as [Hx _]. apply Hlt. exact Hx.
         -- intros x [<-|Hx]; [apply bytes_leb_refl|]. apply bytes_ltb_leb. apply Hpost. exact Hx.
     + assert (~ In (r_version lst) (map f_version all)) as Hni.
@@ -879,8 +929,17 @@ Proof.
     { rewrite Hall in Hx. apply in_app_or in Hx as [Hx|[<-|Hx]]; [exact Hx| |].
       - rewrite bytes_ltb_irrefl in Elt. discriminate.
       - rewrite (bytes_ltb_asym _ _ (Hgt x Hx)) in Elt. discriminate. }
-    assert (has_rev revs (f_version x) = true) as ->; [|rewrite andb_false_r; reflexivity].
-    apply has_rev_In. rewrite Hsn, map_app, Hmrl. apply in_or_app. left. apply in_map. exact HxA. }
+    assert (done_rev revs (f_version x) = true) as ->; [|rewrite andb_false_r; reflexivity].
+    apply In_nth_error in HxA as [i Hi].
+    assert (i < length A) as Hil by (apply nth_error_Some; congruence).
+    destruct (nth_error_some_lt rl i ltac:(lia)) as [r Hr].
+    assert (r_version r = f_version x) as Evx.
+    { assert (nth_error (map (@r_version hash) rl) i = nth_error (map f_version A) i) as X by (rewrite Hmrl; reflexivity).
+      rewrite !nth_error_map, Hr, Hi in X. simpl in X. congruence. }
+    assert (nth_error revs i = Some r) as Hri.
+    { rewrite Hsn. rewrite nth_error_app1 by lia. exact Hr. }
+    apply done_rev_In. exists r. split; [eapply nth_error_In; exact Hri|]. split; [exact Evx|].
+    apply (Hcomp i r); [unfold m in *; destruct p; lia|exact Hri]. }
   assert (newer (f_version fm) all = B) as ->.
   { rewrite newer_mig. unfold skip_checkpoints. rewrite (filter_true _ all).
     2:{ intros x Hx. rewrite (Hnc x Hx). reflexivity. }
@@ -910,6 +969,7 @@ Arguments sorted_revs {hash}.
 Arguments complete {hash}.
 Arguments only_last_partial {hash}.
 Arguments has_rev {hash}.
+Arguments done_rev {hash}.
 Arguments ooo_files {hash}.
 Arguments pending_spec {hash}.
 
@@ -985,10 +1045,12 @@ Proof.
 Qed.
 
 Lemma ooo_no_rev fv lv all (revs : list rev) r f :
-  In r revs -> In f (ooo_files fv lv revs all) -> r_version r <> f_version f.
+  In r revs -> complete r -> In f (ooo_files fv lv revs all) -> r_version r <> f_version f.
 Proof.
-  intros Hin Hf E. unfold ooo_files in Hf. apply filter_In in Hf as [_ Hf].
-  apply andb_true_iff in Hf as [_ Hf]. rewrite <- E, (has_rev_of_In hash revs r Hin) in Hf. discriminate.
+  intros Hin Hc Hf E. unfold ooo_files in Hf. apply filter_In in Hf as [_ Hf].
+  apply andb_true_iff in Hf as [_ Hf]. apply negb_true_iff in Hf.
+  assert (done_rev revs (f_version f) = true) as X by (apply (done_rev_In hash); exists r; auto).
+  congruence.
 Qed.
 
 Lemma find_In_sorted all g :
@@ -1015,13 +1077,13 @@ Proof.
     apply Nat.eqb_neq in Ec. apply Ec. exact Hc. }
   destruct (r_applied (last revs r) =? r_total (last revs r)) eqn:Ec.
   - simpl in Hf. apply by_order_files in Hf as [Hf|Hf].
-    + exact (ooo_no_rev _ _ all revs r f Hr Hf Ev).
+    + exact (ooo_no_rev _ _ all revs r f Hr Hc Hf Ev).
     + exact (newer_no_rev all revs r r f Hsr Hr Hf Ev).
   - destruct (find _ all) as [g|] eqn:Efind.
     + apply find_some in Efind as [_ Hg].
       destruct (f_ckpt g); simpl in Hf.
       * exact (Hcons g Hg eq_refl Hf).
-      * apply by_order_files in Hf as [Hf|Hf]; [exact (ooo_no_rev _ _ all revs r f Hr Hf Ev)|].
+      * apply by_order_files in Hf as [Hf|Hf]; [exact (ooo_no_rev _ _ all revs r f Hr Hc Hf Ev)|].
         exact (Hcons g Hg eq_refl Hf).
     + destruct (existsb _ all); simpl in Hf; exact Hf.
 Qed.
@@ -1181,7 +1243,7 @@ Qed.
 Lemma ooo_files_In fv lv (revs : list rev) all f :
   In f (ooo_files fv lv revs all) <->
   In f all /\ f_ckpt f = false /\ bytes_leb fv (f_version f) = true /\
-  bytes_ltb (f_version f) lv = true /\ has_rev revs (f_version f) = false.
+  bytes_ltb (f_version f) lv = true /\ done_rev revs (f_version f) = false.
 Proof.
   unfold ooo_files. rewrite filter_In, !andb_true_iff, !negb_true_iff. tauto.
 Qed.
@@ -1407,9 +1469,60 @@ Qed.
 
 End Explicit.
 
-(** The documented "partially applied file first" is false of the faithful model when the
-    partial revision is not the greatest recorded version: files 1,2,3; revisions
-    1 complete, 2 partial (1/3), 3 complete; --exec-order non-linear: "no pending files". *)
+(** Every partially applied revision is resumed, also when it is not the greatest recorded
+    version (an out-of-order file that failed in a previous non-linear run): its file is among
+    the out-of-order files, which linear rejects and non-linear runs first (linear-skip skips
+    them, as documented). Fixed defect C11-nonlinear-partial-not-resumed. *)
+Lemma by_order_skipped_In o s p f :
+  o <> LinearSkip -> In f s -> In f (result_files (by_order o s p)).
+Proof.
+  intros Ho H. destruct o; [|congruence|]; simpl.
+  - destruct s as [|a s]; [destruct H|]. simpl. simpl in H. destruct H as [->|H]; [left; reflexivity|].
+    right. apply in_or_app. left. exact H.
+  - rewrite finish_files. apply in_or_app. left. exact H.
+Qed.
+
+Lemma sorted_revs_hd_min (hash : Type) (revs : list (rev hash)) r0 r :
+  sorted_revs revs -> In r revs -> bytes_leb (r_version (hd r0 revs)) (r_version r) = true.
+Proof.
+  intros Hs Hin. destruct revs as [|a l]; [destruct Hin|]. simpl.
+  destruct Hin as [<-|Hin]; [apply bytes_leb_refl|].
+  inversion Hs as [|? ? _ Hf]; subst. rewrite Forall_forall in Hf. apply bytes_ltb_leb. exact (Hf r Hin).
+Qed.
+
+Lemma partial_resumed_any (hash : Type) c all (revs : list (rev hash)) r0 r g :
+  sorted_files all -> sorted_revs revs -> c_order c <> LinearSkip ->
+  In r revs -> ~ complete r -> In g all -> f_ckpt g = false -> f_version g = r_version r ->
+  (forall k, In k all -> f_version k = r_version (last revs r0) -> f_ckpt k = false) ->
+  (complete (last revs r0) \/ exists k, In k all /\ f_version k = r_version (last revs r0)) ->
+  In g (result_files (fst (pending c all revs))).
+Proof.
+  intros Hsa Hsr Ho Hin Hp Hg Hck Hv Hnock Hex.
+  assert (revs <> []) as Hne by (destruct revs; [destruct Hin|discriminate]).
+  rewrite (pending_hist_spec hash c all revs r0 Hsa Hsr Hne). unfold hist_spec. cbv zeta.
+  destruct (sorted_revs_last_max hash revs r0 r Hsr Hin) as [El|Lt].
+  - (* r is the last revision *)
+    assert (r_applied (last revs r0) =? r_total (last revs r0) = false) as ->.
+    { apply Nat.eqb_neq. rewrite <- El. exact Hp. }
+    rewrite <- El, <- Hv. rewrite (find_In_sorted all g Hsa Hg). rewrite Hck. cbn [fst].
+    apply by_order_result_In. left. reflexivity.
+  - (* r is older than the last revision: its file is out of order *)
+    assert (In g (ooo_files (r_version (hd r0 revs)) (r_version (last revs r0)) revs all)) as Hooo.
+    { apply (ooo_files_In hash). split; [exact Hg|]. split; [exact Hck|]. rewrite Hv.
+      split; [apply sorted_revs_hd_min; assumption|]. split; [exact Lt|].
+      destruct (done_rev revs (r_version r)) eqn:D; [|reflexivity]. exfalso.
+      apply (done_rev_In hash) in D as (r' & Hr' & E' & C').
+      assert (r' = r) as -> by (apply (sorted_revs_unique hash revs); auto). exact (Hp C'). }
+    destruct (r_applied (last revs r0) =? r_total (last revs r0)) eqn:Ec.
+    + cbn [fst]. apply by_order_skipped_In; assumption.
+    + destruct Hex as [Hc|(k & Hk & Ek)]; [apply Nat.eqb_neq in Ec; contradiction|].
+      pose proof (Hnock k Hk Ek) as Hkc. rewrite <- Ek in *.
+      rewrite (find_In_sorted all k Hsa Hk). rewrite Hkc. cbn [fst].
+      apply by_order_skipped_In; assumption.
+Qed.
+
+(** linear-skip skips such a file like every other out-of-order file: files 1,2,3; revisions
+    1 complete, 2 partial (1/3), 3 complete. *)
 Definition w_files : list file :=
   [mkFile [49%N] [[65%N]] false; mkFile [50%N] [[65%N]; [66%N]; [67%N]] false; mkFile [51%N] [[65%N]] false].
 Definition w_revs : list (rev unit) :=
@@ -1420,18 +1533,6 @@ Proof. unfold sorted_files, w_files, fver_lt. repeat constructor. Qed.
 
 Lemma w_revs_sorted : sorted_revs w_revs.
 Proof. unfold sorted_revs, w_revs, rver_lt. repeat constructor. Qed.
-
-Lemma partial_not_last_witness :
-  exists (c : cfg) (all : list file) (revs : list (rev unit)) (r : rev unit) (g : file),
-    sorted_files all /\ sorted_revs revs /\ In r revs /\ r_applied r <> r_total r /\
-    In g all /\ f_ckpt g = false /\ f_version g = r_version r /\
-    pending c all revs = (PNoPending, None).
-Proof.
-  exists (mkCfg NonLinear None false false), w_files, w_revs,
-         (mkRev [50%N] 1 3 [tt] true 2%N), (mkFile [50%N] [[65%N]; [66%N]; [67%N]] false).
-  split; [exact w_files_sorted|]. split; [exact w_revs_sorted|].
-  vm_compute. repeat split; auto; discriminate.
-Qed.
 
 Lemma first_run_dirty_refused (hash : Type) (c : cfg) (all : list file) :
   c_dirty c = true -> c_allow_dirty c = false -> c_baseline c = None ->
